@@ -31,6 +31,18 @@ type layoutEntry struct {
 	pos   string
 }
 
+// layoutAll: like layoutOf for a parser, but keeps every store of a field (a parser that serves several versions stores a
+// field once per version).
+func (c *Ctx) layoutAll(fn *ssa.Function) map[string][]layoutEntry {
+	all := map[string][]layoutEntry{}
+	layoutCollect = func(f string, e layoutEntry) { all[f] = append(all[f], e) }
+	c.layoutOf(fn, false)
+	layoutCollect = nil
+	return all
+}
+
+var layoutCollect func(string, layoutEntry)
+
 func (c *Ctx) layoutOf(fn *ssa.Function, writer bool) map[string]layoutEntry {
 	out := map[string]layoutEntry{}
 	if fn == nil || fn.Blocks == nil {
@@ -120,6 +132,16 @@ func (c *Ctx) layoutOf(fn *ssa.Function, writer bool) map[string]layoutEntry {
 		})
 		return out
 	}
+	var curBlk *ssa.BasicBlock
+	putR := func(f string, e layoutEntry) {
+		out[f] = e
+		if layoutCollect != nil {
+			layoutCollect(f, e)
+		}
+		if layoutCollectBlk != nil {
+			layoutCollectBlk(f, e, curBlk)
+		}
+	}
 	instrs(fn, func(in ssa.Instruction) {
 		st, ok := in.(*ssa.Store)
 		if !ok {
@@ -133,7 +155,17 @@ func (c *Ctx) layoutOf(fn *ssa.Function, writer bool) map[string]layoutEntry {
 		if fld == nil {
 			return
 		}
+		curBlk = st.Block()
 		v := stripConv(st.Val)
+		// F, err = readValue(pos, width): a local helper (closure) that takes the position and the width
+		if ex, isEx := v.(*ssa.Extract); isEx && ex.Index == 0 {
+			if call, isCall := ex.Tuple.(*ssa.Call); isCall && len(call.Call.Args) == 2 && isIntType(call.Call.Args[0].Type()) && isIntType(call.Call.Args[1].Type()) {
+				if _, isClosure := call.Call.Value.(*ssa.MakeClosure); isClosure || call.Call.StaticCallee() != nil && call.Call.StaticCallee().Parent() != nil {
+					putR(fld.Name(), layoutEntry{normSyms(fb.linString(fb.lin(call.Call.Args[0]))), normSyms(fb.linString(fb.lin(call.Call.Args[1]))), c.InstrPos(in)})
+					return
+				}
+			}
+		}
 		switch x := v.(type) {
 		case *ssa.Call:
 			com := x.Common()
@@ -141,19 +173,19 @@ func (c *Ctx) layoutOf(fn *ssa.Function, writer bool) map[string]layoutEntry {
 			args := com.Args
 			if strings.HasPrefix(name, "Uint") && len(args) >= 1 {
 				if off, ok := offOf(args[len(args)-1]); ok {
-					out[fld.Name()] = layoutEntry{off, widthOfName(name), c.InstrPos(in)}
+					putR(fld.Name(), layoutEntry{off, widthOfName(name), c.InstrPos(in)})
 				}
 				return
 			}
 			if g := com.StaticCallee(); g != nil && inModule(fnPkgPath(g)) && len(args) >= 2 {
 				if off, ok := offOf(args[0]); ok && isIntType(args[1].Type()) {
-					out[fld.Name()] = layoutEntry{off, normSyms(fb.linString(fb.lin(args[1]))), c.InstrPos(in)}
+					putR(fld.Name(), layoutEntry{off, normSyms(fb.linString(fb.lin(args[1]))), c.InstrPos(in)})
 				}
 			}
 		case *ssa.UnOp:
 			if ia, isIA := x.X.(*ssa.IndexAddr); isIA && x.Op == token.MUL {
 				if b, isB := x.Type().Underlying().(*types.Basic); isB && b.Kind() == types.Uint8 {
-					out[fld.Name()] = layoutEntry{normSyms(fb.linString(fb.lin(ia.Index))), "1", c.InstrPos(in)}
+					putR(fld.Name(), layoutEntry{normSyms(fb.linString(fb.lin(ia.Index))), "1", c.InstrPos(in)})
 				}
 			}
 		}
@@ -260,6 +292,7 @@ func layoutAgreementRule(c *Ctx, r *Result, rule, what, writerName string, reade
 			continue
 		}
 		rl := c.layoutOf(rf, false)
+		ra := c.layoutAll(rf)
 		if layoutRename != nil {
 			rl2 := map[string]layoutEntry{}
 			for f, e := range rl {
@@ -281,11 +314,59 @@ func layoutAgreementRule(c *Ctx, r *Result, rule, what, writerName string, reade
 			n++
 			we, re := wl[f], rl[f]
 			ok := we.off == re.off && (we.width == re.width || we.width == "" || re.width == "")
+			if !ok && layoutRename == nil {
+				// a parser for several versions: one of its stores of the field matches, with the 8-byte sizes the writers produce
+				for _, cand := range ra[f] {
+					if at8(we.off) == at8(cand.off) && at8(we.off) != "" && (at8(we.width) == at8(cand.width) || we.width == "" || cand.width == "") {
+						ok, re = true, cand
+					}
+				}
+			}
+			if !ok && layoutRename == nil && len(ra[f]) > 0 && multiVersionParser[rn] {
+				// the parser serves several versions and does not take this field from the writer's position in any of
+				// them: it may simply not read the field for this version
+				r.Undec(rule, fmt.Sprintf("%s~%s#%s", writerName, rn, f), re.pos, fmt.Sprintf("%s field %s: written at offset %s; the multi-version parser reads it elsewhere (%s) or not for this version", what, f, we.off, re.off))
+				continue
+			}
 			r.Check(ok, rule, fmt.Sprintf("%s~%s#%s", writerName, rn, f), re.pos, fmt.Sprintf("%s field %s: written at offset %s with width %s (%s), read at offset %s with width %s", what, f, we.off, we.width, we.pos, re.off, re.width))
+		}
+	}
+	// two fields of one structure are not taken from the same bytes (a copy-paste of the position)
+	for _, rn := range readerNames {
+		rf := c.FnOpt(rn)
+		if rf == nil {
+			continue
+		}
+		type src struct {
+			field string
+			e     layoutEntry
+			blk   *ssa.BasicBlock
+		}
+		var srcs []src
+		layoutCollectBlk = func(f string, e layoutEntry, b *ssa.BasicBlock) { srcs = append(srcs, src{f, e, b}) }
+		c.layoutOf(rf, false)
+		layoutCollectBlk = nil
+		for i := range srcs {
+			for j := i + 1; j < len(srcs); j++ {
+				a, b := srcs[i], srcs[j]
+				if a.field == b.field || a.e.off != b.e.off || a.e.width != b.e.width || a.e.off == "" {
+					continue
+				}
+				if a.blk != b.blk && !a.blk.Dominates(b.blk) && !b.blk.Dominates(a.blk) {
+					continue
+				}
+				n++
+				r.Viol(rule, fmt.Sprintf("%s#%s-and-%s-from-the-same-bytes", rn, a.field, b.field), b.e.pos, fmt.Sprintf("%s: the fields %s and %s are both taken from offset %s (width %s)", what, a.field, b.field, a.e.off, a.e.width))
+			}
 		}
 	}
 	return n
 }
+
+var layoutCollectBlk func(string, layoutEntry, *ssa.BasicBlock)
+
+// parsers that serve several versions of a structure in one function
+var multiVersionParser = map[string]bool{"core.ReadSuperblock": true}
 
 func init() {
 	registry["C14"].Meta.Rules["C14.14"] = "the name index header is parsed as it is serialised: for every named field that encodeHeader puts into the buffer and a header parser takes out of it, offset (a linear form over constants and the superblock's sizes) and width are the same on both sides (a two-byte record count read as one byte lists count mod 256 attributes; split and merge percent taken from each other's byte change on every read-modify-write)"
@@ -731,4 +812,47 @@ func allocatedSizeRecordedRule(c *Ctx, r *Result, rule string, floor int) {
 	if n < floor {
 		r.Shortfall(c, rule, fmt.Sprintf("%s: only %d allocations whose address and size are recorded in one object (expected >= %d)", rule, n, floor))
 	}
+}
+
+// at8 evaluates a normalised linear form with OffsetSize = LengthSize = 8 ("" when other symbols remain).
+func at8(s string) string {
+	if s == "" {
+		return ""
+	}
+	total := int64(0)
+	cur := ""
+	var terms []string
+	for i, r := range s {
+		if (r == '+' || r == '-') && i > 0 {
+			terms = append(terms, cur)
+			cur = ""
+		}
+		cur += string(r)
+	}
+	terms = append(terms, cur)
+	for _, term := range terms {
+		sign := int64(1)
+		body := term
+		if strings.HasPrefix(body, "-") {
+			sign, body = -1, body[1:]
+		} else {
+			body = strings.TrimPrefix(body, "+")
+		}
+		coef := int64(1)
+		if k := strings.Index(body, "*"); k >= 0 {
+			fmt.Sscan(body[:k], &coef)
+			body = body[k+1:]
+		}
+		switch body {
+		case "OffsetSize", "LengthSize":
+			total += sign * coef * 8
+		default:
+			var v int64
+			if _, err := fmt.Sscan(body, &v); err != nil {
+				return ""
+			}
+			total += sign * coef * v
+		}
+	}
+	return fmt.Sprint(total)
 }
